@@ -13,6 +13,8 @@
 //          r <id>               interval_tree::remove(node id)
 //          q <lb> <ub>          for_overlaps(fn, lb, ub)        prints "o <ids in callback order>"
 //          p <x>                for_overlaps(fn, x)             (one-argument form)
+//          qm <mode> <lb> <ub>  like q / p, but the callback modifies the caller's variables that were passed as bounds: co coalescing
+//          pm <mode> <x>        (lo = min(lo, n->lo), hi = max(hi, n->hi)), cu cursor advance, ga garbage; the answer must be that for the original bounds
 //          qt <kind> <lb> <ub>  for_overlaps(fn, (K)lb, (K)ub) with arguments of C++ type K = kind: u32 unsigned, usz size_t, i16 short,
 //          pt <kind> <x>        i32 int, f32 float (double trees only), mix (size_t, int); values non-negative and exact in both types
 //          w <id> <hi>          upper(node) := hi, nothing re-aggregated (tree becomes "dirty": annotations stale)
@@ -213,17 +215,24 @@ template<class E> struct Har {
 	// ql/qu: the arguments as they are PASSED to for_overlaps (their C++ type may differ from the endpoint type: qt / pt ops);
 	// lb/ub: the same mathematical values as endpoints, used by the oracle.  Returns the callback sequence.
 	template<class QL, class QU>
-	static std::vector<int> query(IT &it, Node *pool, int P, QL ql, QU qu, E lb, E ub, bool one_arg, bool dirty, bool silent = false) {
+	// mut (qm / pm ops): the callback MODIFIES the caller's variables that were passed as bounds -- 1 coalescing
+	// (a = min(a, n->lo), b = max(b, n->hi)), 2 cursor advance (a = b = n->hi), 3 garbage (a = max, b = lowest).  Modelling
+	// assumption, checked here: the bounds are read once at the call (passed by value), so the answer is that for the ORIGINAL bounds.
+	static std::vector<int> query(IT &it, Node *pool, int P, QL ql, QU qu, E lb, E ub, bool one_arg, bool dirty, bool silent = false, int mut = 0) {
 		std::vector<int> seen;
 		size_t calls = 0;
 		bool nonmember = false;
+		QL a = ql; QU b = qu;       // the caller's variables
 		auto fn = [&](Node *nd) {
 			if(++calls > 4 * (size_t)P + 16) throw vh::AssertStop{"callback storm"};
 			if(!nd || nd < pool || nd >= pool + P) { nonmember = true; return; }
 			seen.push_back(nd->id);
+			if(mut == 1) { if(nd->lo < a) a = (QL)nd->lo; if(b < nd->hi) b = (QU)nd->hi; if(one_arg && a < nd->hi) a = (QL)nd->hi; }
+			else if(mut == 2) { a = (QL)nd->hi; b = (QU)nd->hi; }
+			else if(mut == 3) { a = std::numeric_limits<QL>::max(); b = std::numeric_limits<QU>::lowest(); }
 		};
-		if(one_arg) it.for_overlaps(fn, ql);
-		else it.for_overlaps(fn, ql, qu);
+		if(one_arg) it.for_overlaps(fn, a);
+		else it.for_overlaps(fn, a, b);
 		if(silent) return seen;
 		std::string s = "o";
 		for(int i : seen) s += " " + std::to_string(i);
@@ -338,6 +347,14 @@ template<class E> struct Har {
 				catch(vh::AssertStop &a) { vh::oracle("iv-assert", "FRG_ASSERT fired in for_overlaps: %s", a.where.c_str()); throw; }
 				if(vh::g_oracle_count > 0) { emit("stopped"); return; }
 				continue;
+			} else if((o == "qm" && t.size() == 4) || (o == "pm" && t.size() == 3)) {
+				int mut = t[1] == "co" ? 1 : t[1] == "cu" ? 2 : t[1] == "ga" ? 3 : 0;
+				E lb = C::parse(t[2]), ub = o == "qm" ? C::parse(t[3]) : lb;
+				if(!mut || !C::valid(lb) || !C::valid(ub)) { emit("skip"); continue; }
+				try { query(it, pool.get(), P, lb, ub, lb, ub, o == "pm", dirty, false, mut); }
+				catch(vh::AssertStop &a) { vh::oracle("iv-assert", "FRG_ASSERT fired in for_overlaps: %s", a.where.c_str()); throw; }
+				if(vh::g_oracle_count > 0) { emit("stopped"); return; }
+				continue;
 			} else if((o == "qt" && t.size() == 4) || (o == "pt" && t.size() == 3)) {
 				bool ok;
 				try { ok = typed_query(it, pool.get(), P, t[1], t[2], o == "qt" ? t[3] : t[2], o == "pt", dirty); }
@@ -383,6 +400,10 @@ template<class E> struct Har {
 		vh::Lines qs;
 		for(int lb = 0; lb <= u; lb++) for(int ub = lb; ub <= u; ub++) qs.push_back("q " + S(C::from_int(lb)) + " " + S(C::from_int(ub)));
 		for(int p = 0; p <= u; p++) qs.push_back("p " + S(C::from_int(p)));
+		// every query again with a callback that modifies the caller's bound variables
+		static const char *modes[] = {"co", "cu", "ga"};
+		for(int lb = 0; lb <= u; lb++) for(int ub = lb; ub <= u; ub++) qs.push_back(std::string("qm ") + modes[(lb + ub) % 3] + " " + S(C::from_int(lb)) + " " + S(C::from_int(ub)));
+		for(int p = 0; p <= u; p++) qs.push_back(std::string("pm ") + modes[p % 3] + " " + S(C::from_int(p)));
 		// typed instantiations: every query with non-negative bounds again with arguments of another arithmetic type
 		if(std::string(C::name()) != "u64") {
 			static const char *ikinds[] = {"u32", "usz", "i16", "i32"};
